@@ -16,7 +16,7 @@ from hypothesis import strategies as st
 from vlib.runner import Outcome
 
 ID = "C01"
-RULE = ("Hypothesis op lists (<=60 quick / <=150 thorough) over a pool of <=24/48 SimEvents with times "
+RULE = ("Hypothesis op lists (<=60 quick / <=150 thorough) over a pool of <=24/48 SimEvents (plain and user-defined subclasses) with times "
         "from a small tie-rich pool (+-0.0, +-inf, equal int/float, equal Durations in different units) "
         "and arbitrary values, 4 time types; oracle = sorted-list model compared after every op "
         "(return value, size, is_empty, contains for every pool event, peek_first) plus the drain order "
@@ -83,8 +83,9 @@ def strategy(tier):
     def case(draw):
         ttype = draw(st.sampled_from(["int", "float", "mixed", "duration"]))
         ts = _time_strategy(ttype)
-        pool = draw(st.lists(st.tuples(ts, prio).map(list), min_size=draw(st.sampled_from([1, 4, 8])),
-                             max_size=maxpool))
+        # third field: the event class (0 = SimEvent, 1 / 2 = user-defined subclasses of SimEvent)
+        pool = draw(st.lists(st.tuples(ts, prio, st.sampled_from([0, 0, 0, 1, 2])).map(list),
+                             min_size=draw(st.sampled_from([1, 4, 8])), max_size=maxpool))
         # a warm-up block of adds (so that interior positions exist), then the free mixture
         warm = draw(st.integers(0, min(len(pool), 12)))
         head = [["add", draw(k)] for _ in range(warm)]
@@ -125,12 +126,24 @@ def run_case(case):
 
     out = Outcome()
     out.label("ttype=" + case["ttype"])
+    class TimeoutEvent(SimEvent):
+        pass
+
+    class UrgentEvent(TimeoutEvent):
+        pass
+
+    classes = (SimEvent, TimeoutEvent, UrgentEvent)
     events = []
-    for t, p in case["pool"]:
-        events.append(SimEvent(_decode_time(t), _TARGET, "noop", p))
+    for entry in case["pool"]:
+        t, p = entry[0], entry[1]
+        cls = classes[entry[2] if len(entry) > 2 else 0]
+        if cls is not SimEvent:
+            out.label("event-subclass")
+        events.append(cls(_decode_time(t), _TARGET, "noop", p))
     n = len(events)
     # reference key, independent of SimEvent's own comparison code
     refkey = [(_key_time(e.time), -case["pool"][i][1], i) for i, e in enumerate(events)]
+    # (creation order i is the documented last tie-breaker, whatever the class of the event)
     ids = [e.id for e in events]
     if any(ids[i] >= ids[i + 1] for i in range(n - 1)):
         out.fail("id-not-increasing", ids)
